@@ -376,3 +376,235 @@ Proof.
         nia.
     + rewrite Z2Pos.id by lia. nia.
 Qed.
+
+(* ---------- float literals ---------- *)
+Lemma ltb_false a b : b <= a -> (a <? b) = false.
+Proof. intros. apply Z.ltb_ge. assumption. Qed.
+Lemma ltb_true a b : a < b -> (a <? b) = true.
+Proof. intros. apply Z.ltb_lt. assumption. Qed.
+Lemma leb_true a b : a <= b -> (a <=? b) = true.
+Proof. intros. apply Z.leb_le. assumption. Qed.
+Lemma gtb_false a b : a <= b -> (a >? b) = false.
+Proof. intros. rewrite Z.gtb_ltb. apply Z.ltb_ge. assumption. Qed.
+
+Lemma size_pos p : 1 <= Z.pos (Pos.size p).
+Proof. lia. Qed.
+
+(* the exponent seen by fin_float is the bit length of the value *)
+Lemma fin_float_ok neg m e :
+  MinExp <= e + Z.pos (Pos.size m) <= MaxExp ->
+  fin_float neg m e = QVal (FBig neg (fst (odd_part m)) (e + snd (odd_part m)))
+  /\ Z.pos (Pos.size (fst (odd_part m))) + snd (odd_part m) = Z.pos (Pos.size m).
+Proof.
+  intros H. unfold fin_float. destruct (odd_part_spec m) as [E [K O]].
+  destruct (odd_part m) as [mo k]. cbn [fst snd] in *.
+  assert (S : Z.pos (Pos.size mo) + k = Z.pos (Pos.size m)).
+  { rewrite <- (size_mul_pow2 mo k K). rewrite <- E. rewrite Pos2Z.id. reflexivity. }
+  split; [|exact S].
+  rewrite gtb_false by lia. rewrite ltb_false by lia. reflexivity.
+Qed.
+
+Lemma lit_core_int neg P : Z.pos P < comp_limit ->
+  lit_core neg (N.pos P) 0 = QVal (FRat (sgn neg (Z.pos P)) 1).
+Proof.
+  intros H. pose proof comp_limit_lt as CL. unfold lit_core.
+  assert (S : Z.pos (Pos.size P) <= 4095) by (apply size_le_of_lt; lia).
+  pose proof (size_pos P) as S1.
+  rewrite ltb_false by (unfold MinExp; lia). rewrite gtb_false by (unfold MaxExp; lia). cbn [orb].
+  destruct (round_pos_bound P H) as [K B].
+  destruct (round_pos P false) as [m k]. cbn [fst snd] in K, B.
+  assert (Sm : Z.pos (Pos.size m) + k <= 4095).
+  { rewrite <- size_mul_pow2 by lia. apply size_le_of_lt; [lia|].
+    rewrite Z2Pos.id by (assert (0 < 2 ^ k) by (apply Z.pow_pos_nonneg; lia); nia). exact B. }
+  pose proof (size_pos m) as Sm1.
+  destruct (fin_float_ok neg m (k + 0)) as [F S2]; [unfold MinExp, MaxExp; lia|].
+  rewrite F. 
+  replace (k + 0 + snd (odd_part m) + Z.pos (Pos.size (fst (odd_part m)))) with (k + Z.pos (Pos.size m)) by lia.
+  rewrite !ltb_true by (unfold maxExp; lia). rewrite !leb_true by lia. cbn [andb].
+  destruct (odd_part_spec P) as [E [K2 _]]. destruct (odd_part P) as [po tz]. cbn [fst snd] in *.
+  rewrite leb_true by lia. rewrite Z.add_0_r, <- E. reflexivity.
+Qed.
+
+Lemma float_lit_dec z s : dec_shape z s -> Z.abs z < comp_limit -> float_lit s = QVal (FRat z 1).
+Proof.
+  intros H L. unfold float_lit.
+  assert (NP : forall ds n, digits_of 10 n ds -> strip_prefix [c_0; c_x; c_dot] ds = None).
+  { intros ds n D. pose proof (digits_decchar _ _ D) as F.
+    destruct ds as [|a [|b r]]; cbn [strip_prefix]; [reflexivity|destruct (N.eqb c_0 a); reflexivity|].
+    destruct (N.eqb c_0 a); [|reflexivity].
+    inversion F as [|? ? _ F2]. inversion F2 as [|? ? Hb _]. unfold decchar in Hb.
+    rewrite N_eqb_false by (unfold c_x; lia). reflexivity. }
+  destruct H as [|p ds D|p ds D].
+  - reflexivity.
+  - rewrite (strip_sign_digits _ _ D). cbv beta iota zeta.
+    rewrite (NP _ _ D), (parse_digits_of _ _ _ D).
+    apply (lit_core_int false). exact L.
+  - change (strip_sign (c_minus :: ds)) with (true, ds). cbv beta iota zeta.
+    rewrite (NP _ _ D), (parse_digits_of _ _ _ D). apply (lit_core_int true). exact L.
+Qed.
+
+Lemma small_int_of_comp z : Z.abs z < comp_limit -> small_int z = true.
+Proof.
+  intros H. pose proof comp_limit_lt. unfold small_int, maxExp. apply Z.ltb_lt.
+  destruct (Z.eq_dec (Z.abs z) 0) as [E|E]; [rewrite E; simpl; lia|].
+  assert (Z.log2 (Z.abs z) < 4095) by (apply Z.log2_lt_pow2; lia). lia.
+Qed.
+
+Lemma make_rat_id n d : Z.gcd n (Z.pos d) = 1 -> Z.abs n < comp_limit -> Z.pos d < comp_limit ->
+  make_rat n d = QVal (FRat n d).
+Proof.
+  intros G Hn Hd. unfold make_rat. rewrite G, !Z.div_1_r, Pos2Z.id.
+  rewrite (small_int_of_comp n Hn), (small_int_of_comp (Z.pos d)) by (simpl; exact Hd). reflexivity.
+Qed.
+
+Lemma unmarshal_float_rat n d s : print_rat n d = Some s ->
+  Z.gcd n (Z.pos d) = 1 -> Z.abs n < comp_limit -> Z.pos d < comp_limit ->
+  unmarshal_float s = QVal (FRat n d) /\ Forall (fun c => c = c_slash \/ decsigned c) s.
+Proof.
+  intros P G Hn Hd. unfold print_rat in P.
+  destruct (print_Z_shape n) as [a [Ea Ha]].
+  assert (Fa : Forall decsigned a) by (apply (dec_shape_chars _ _ Ha)).
+  assert (Na : ~ In c_slash a) by (apply (notin_dec _ _ Fa); unfold c_slash, c_minus, decchar; lia).
+  assert (D1 : d = 1%positive \/ d <> 1%positive) by (destruct (Pos.eq_dec d 1); auto).
+  destruct D1 as [-> | D1].
+  - rewrite Ea in P. injection P as <-. split.
+    + unfold unmarshal_float. rewrite (split_byte_notin _ _ Na). apply (float_lit_dec _ _ Ha Hn).
+    + eapply Forall_impl; [|exact Fa]. auto.
+  - assert (P' : bind (print_Z n) (fun a => bind (print_pos 10 d) (fun b => Some (a ++ c_slash :: b))) = Some s)
+      by (destruct d; try exact P; congruence).
+    rewrite Ea in P'. cbn [bind] in P'.
+    destruct (print_pos_spec 10 d ltac:(lia)) as [b [Eb Db]]. rewrite Eb in P'. cbn [bind] in P'.
+    injection P' as <-. split.
+    + unfold unmarshal_float. rewrite (split_byte_first _ _ _ Na).
+      rewrite (float_lit_dec _ _ Ha Hn).
+      rewrite (float_lit_dec (Z.pos d) b (DSpos _ _ Db)) by (simpl; exact Hd).
+      cbn [qquo fquo]. rewrite Z.mul_1_r, Pos.mul_1_l. apply make_rat_id; assumption.
+    + apply Forall_app. split; [eapply Forall_impl; [|exact Fa]; auto|].
+      constructor; [left; reflexivity|].
+      eapply Forall_impl; [|apply (digits_decchar _ _ Db)]. intros c Hc. right. right. exact Hc.
+Qed.
+
+(* ---------- the hex-mantissa form ---------- *)
+Lemma float_lit_hex neg rest :
+  float_lit ((if neg then [c_minus] else []) ++ [c_0; c_x; c_dot] ++ rest) =
+  match split_byte c_p rest with
+  | Some (hs, es) =>
+      let '(eneg, ds) := strip_sign es in
+      match parse_digits 16 hs, parse_digits 10 ds with
+      | Some M, Some ex =>
+          let ex := sgn eneg (Z.of_N ex) in
+          if in_int64 ex then lit_core neg M (ex - 4 * Z.of_nat (List.length hs)) else QUnknown
+      | _, _ => QUnsupported
+      end
+  | None => QUnsupported
+  end.
+Proof. destruct neg; reflexivity. Qed.
+
+Lemma exp_text ex x : dec_shape ex x ->
+  exists eneg ds n, strip_sign ((if 0 <=? ex then [c_plus] else []) ++ x) = (eneg, ds)
+    /\ parse_digits 10 ds = Some n /\ sgn eneg (Z.of_N n) = ex.
+Proof.
+  intros H. destruct H as [|p ds D|p ds D].
+  - exists false, [c_0], 0%N. repeat split; reflexivity.
+  - exists false, ds, (N.pos p). split; [reflexivity|]. split; [apply (parse_digits_of _ _ _ D)|reflexivity].
+  - exists true, ds, (N.pos p). split; [reflexivity|]. split; [apply (parse_digits_of _ _ _ D)|reflexivity].
+Qed.
+
+Lemma hex_len P h : digits_of 16 (N.pos P) h -> Z.pos (Pos.size P) mod 4 = 0 ->
+  4 * Z.of_nat (length h) = Z.pos (Pos.size P).
+Proof.
+  intros [_ _ [d0 [rest [E _]]] Dl] M.
+  assert (L1 : (1 <= length h)%nat) by (rewrite E; simpl; lia).
+  set (l := N.of_nat (length h)) in *.
+  assert (Hl : Z.of_N l = Z.of_nat (length h)) by (unfold l; lia).
+  destruct Dl as [D1 D2].
+  apply N2Z.inj_le in D1. apply N2Z.inj_lt in D2. rewrite N2Z.inj_pow in D1, D2.
+  rewrite N2Z.inj_sub in D1 by (unfold l; lia). rewrite Hl in D1, D2. simpl Z.of_N in D1, D2.
+  change 16 with (2 ^ 4) in D1, D2. rewrite <- !Z.pow_mul_r in D1, D2 by lia.
+  destruct (size_bounds P) as [B1 B2].
+  assert (Z.pos (Pos.size P) - 1 < 4 * Z.of_nat (length h)) by (apply (Z.pow_lt_mono_r_iff 2); lia).
+  assert (4 * (Z.of_nat (length h) - 1) < Z.pos (Pos.size P)) by (apply (Z.pow_lt_mono_r_iff 2); lia).
+  pose proof (Z.div_mod (Z.pos (Pos.size P)) 4 ltac:(lia)). lia.
+Qed.
+
+Definition big_small (m : positive) (e : Z) : bool :=
+  let ex := e + Z.pos (Pos.size m) in
+  let sh := e - hex_shift m in
+  (- maxExp <? ex) && (ex <? maxExp) && (-10000000 <=? sh) && (sh <=? 10000000).
+
+(* what Unmarshal returns for the text of a floatVal: the same floatVal, or (small exponent) the equal fraction *)
+Definition big_result (neg : bool) (m : positive) (e : Z) : fval :=
+  if big_small m e
+  then (if 0 <=? e then FRat (sgn neg (Z.pos m * 2 ^ e)) 1 else FRat (sgn neg (Z.pos m)) (Z.to_pos (2 ^ (- e))))
+  else FBig neg m e.
+
+Lemma big_result_den neg m e : fden (big_result neg m e) = fden (FBig neg m e).
+Proof. unfold big_result, fden. destruct (big_small m e); [|reflexivity]. destruct (0 <=? e); reflexivity. Qed.
+
+Definition plainchar (c : N) : Prop := c <> c_colon /\ c <> c_slash.
+
+Lemma hexchar_plain c : hexchar c -> plainchar c.
+Proof. unfold hexchar, plainchar, c_colon, c_slash. lia. Qed.
+Lemma decsigned_plain c : decsigned c -> plainchar c.
+Proof. unfold decsigned, decchar, plainchar, c_colon, c_slash, c_minus. lia. Qed.
+
+Lemma unmarshal_float_big neg m e s : print_big neg m e = Some s ->
+  wf_fval (FBig neg m e) = true ->
+  unmarshal_float s = QVal (big_result neg m e) /\ Forall plainchar s.
+Proof.
+  intros P W. cbn [wf_fval] in W.
+  apply andb_true_iff in W. destruct W as [W W4]. apply andb_true_iff in W. destruct W as [W W3].
+  apply andb_true_iff in W. destruct W as [W1 W2].
+  apply Z.leb_le in W2, W3, W4.
+  unfold print_big in P.
+  set (k := hex_shift m) in *. set (ex := e + Z.pos (Pos.size m)) in *.
+  assert (Hk : 0 <= k < 4) by (unfold k, hex_shift; apply Z.mod_pos_bound; lia).
+  set (PP := Z.to_pos (Z.pos m * 2 ^ k)) in *.
+  assert (SP : Z.pos (Pos.size PP) = Z.pos (Pos.size m) + k) by (apply size_mul_pow2; lia).
+  assert (SM : Z.pos (Pos.size PP) mod 4 = 0).
+  { rewrite SP. unfold k, hex_shift.
+    pose proof (Z.div_mod (- Z.pos (Pos.size m)) 4 ltac:(lia)) as DM.
+    replace (Z.pos (Pos.size m) + - Z.pos (Pos.size m) mod 4) with ((- (- Z.pos (Pos.size m) / 4)) * 4) by lia.
+    apply Z.mod_mul. lia. }
+  assert (S512 : Z.pos (Pos.size PP) <= prec).
+  { unfold prec in *. pose proof (Z.div_mod (Z.pos (Pos.size PP)) 4 ltac:(lia)). lia. }
+  destruct (print_pos_spec 16 PP ltac:(lia)) as [h [Eh Dh]]. rewrite Eh in P. cbn [bind] in P.
+  destruct (print_Z_shape ex) as [x [Ex Hx]]. rewrite Ex in P. cbn [bind] in P.
+  injection P as <-.
+  pose proof (digits_hexchar _ _ _ ltac:(lia) Dh) as Fh.
+  pose proof (dec_shape_chars _ _ Hx) as Fx.
+  assert (PL : Forall plainchar ((if neg then [c_minus] else []) ++
+                 [c_0; c_x; c_dot] ++ h ++ c_p :: (if 0 <=? ex then [c_plus] else []) ++ x)).
+  { apply Forall_app. split.
+    { destruct neg; [constructor; [unfold plainchar, c_minus, c_colon, c_slash; lia|constructor]|constructor]. }
+    repeat (constructor; [unfold plainchar, c_0, c_x, c_dot, c_colon, c_slash; lia|]).
+    apply Forall_app. split; [eapply Forall_impl; [|exact Fh]; apply hexchar_plain|].
+    constructor; [unfold plainchar, c_p, c_colon, c_slash; lia|].
+    apply Forall_app. split.
+    { destruct (0 <=? ex); [constructor; [unfold plainchar, c_plus, c_colon, c_slash; lia|constructor]|constructor]. }
+    eapply Forall_impl; [|exact Fx]. apply decsigned_plain. }
+  split; [|exact PL].
+  unfold unmarshal_float. rewrite split_byte_notin.
+  2:{ intros Hin. rewrite Forall_forall in PL. destruct (PL _ Hin) as [_ Hs]. apply Hs. reflexivity. }
+  rewrite float_lit_hex.
+  rewrite split_byte_first by (apply (notin_hex _ _ Fh); unfold hexchar, c_p; lia).
+  destruct (exp_text ex x Hx) as [eneg [ds [n [E1 [E2 E3]]]]].
+  rewrite E1. cbv beta iota zeta. rewrite (parse_digits_of _ _ _ Dh), E2. rewrite E3.
+  assert (I64 : in_int64 ex = true).
+  { unfold in_int64, MinExp, MaxExp in *. apply andb_true_iff. split; apply Z.leb_le; lia. }
+  rewrite I64. rewrite (hex_len _ _ Dh SM).
+  (* lit_core on the exact mantissa *)
+  unfold lit_core.
+  replace (Z.pos (Pos.size PP) + (ex - Z.pos (Pos.size PP))) with ex by lia.
+  rewrite ltb_false by lia. rewrite gtb_false by lia. cbn [orb].
+  rewrite (round_pos_small PP false S512).
+  assert (OP : odd_part PP = (m, k)) by (apply odd_part_unique; [exact W1|lia]).
+  destruct (fin_float_ok neg PP (0 + (ex - Z.pos (Pos.size PP)))) as [F _]; [lia|].
+  rewrite F, OP. cbn [fst snd].
+  replace (0 + (ex - Z.pos (Pos.size PP)) + k) with e by (unfold ex; lia).
+  replace (k + (ex - Z.pos (Pos.size PP))) with e by (unfold ex; lia).
+  fold ex. unfold big_result, big_small. fold ex. fold k.
+  replace (ex - Z.pos (Pos.size PP)) with (e - k) by (unfold ex; lia).
+  destruct ((- maxExp <? ex) && (ex <? maxExp) && (-10000000 <=? e - k) && (e - k <=? 10000000)); [|reflexivity].
+  destruct (0 <=? e); reflexivity.
+Qed.
